@@ -328,6 +328,10 @@ func c12Run(cs c12Case, ch vrt.Chooser, trace bool) (*world.World, *vrt.Exec, *c
 		w.Serve(libAddr)
 		port := 41000
 		dialIn := func() *world.Remote {
+			// the remote connects once corebgp has digested what happened so far at this instant (the end of
+			// the previous connection in particular): whether a connection that races with the teardown of
+			// its predecessor is admitted is a matter of scheduling, not of damping
+			vrt.WaitQuiescent()
 			port++
 			c, err := w.NW.DialIn(fmt.Sprintf("10.0.0.2:%d", port), libAddr)
 			if err != nil {
